@@ -183,6 +183,14 @@ def check_cpl(c, repo):
         if k == 'TEXT':
             ok = '_coerce_expect_string' in body_calls and any(dotted(kk.func) == 're.compile' for s in x.body for kk in calls_in(s)) and len(apps) == 1
             c.check(ok, f, x, 'text: coerced to the object\'s string type, compiled, appended', witness=str(body_calls), kind='ast', tag='text-branch')
+            if apps:
+                a0 = apps[0].args[0] if apps[0].args else None
+                fresh = isinstance(a0, ast.Call) and dotted(a0.func) == 're.compile'
+                if isinstance(a0, ast.Name):
+                    ds = [s2 for s2 in ast.walk(x) if isinstance(s2, ast.Assign) and a0.id in assigned_names(s2)]
+                    fresh = len(ds) == 1 and isinstance(ds[0].value, ast.Call) and dotted(ds[0].value.func) == 're.compile'
+                c.check(fresh, f, apps[0], 'what is appended is the regex compiled in THIS call with the flags computed in this call (a regex kept from an '
+                        'earlier call has the ignorecase setting of that time)', witness=norm(apps[0]), kind='flow', tag='text-compiled-now')
         elif k in ('EOF', 'TIMEOUT'):
             ok = len(apps) == 1 and is_name(apps[0].args[0], k)
             c.check(ok, f, x, '%s is kept as the marker itself' % k, witness=str([norm(a) for a in apps]), kind='ast', tag='marker-branch:' + k)
@@ -223,6 +231,15 @@ def check_exact(c, repo):
                                                    sorted(['isinstance(%s, self.allowed_string_types)' % pl, '%s in (EOF, TIMEOUT)' % pl]))]
     w = [n for t in tw for n in guard_region(g, t, 'true') if n.kind == 'stmt' and isinstance(n.ast, ast.Assign) and norm(n.ast.value) == '[%s]' % pl]
     c.check(len(tw) == 1 and len(w) == 1, f, tw[0].ast if tw else None, 'a single string or marker is wrapped in a one-element list', kind='path', tag='exact-wrap')
+    # the argument is not replaced by anything else before it is validated
+    for n in g.nodes:
+        if n.kind == 'stmt' and isinstance(n.ast, (ast.Assign, ast.AugAssign)) and pl in assigned_names(n.ast):
+            v = n.ast.value
+            good = (n in w) or (isinstance(v, ast.Call) and dotted(v.func) in ('iter', 'list', 'tuple') and len(v.args) == 1 and is_name(v.args[0], pl)) \
+                or (isinstance(v, ast.ListComp) and any(callee_last(k) == 'prepare_pattern' for k in calls_in(v))
+                                and is_name(v.generators[0].iter, pl) and not v.generators[0].ifs)
+            c.check(good, f, n.ast, 'the pattern argument is only ever wrapped ([p]) or mapped through the validating helper, element by element; '
+                    'it is never replaced by something else before validation', witness=norm(n.ast), kind='ast', tag='exact-rebind:' + norm(n.ast)[:30])
     trs = [t for t in iter_nodes(f.node) if isinstance(t, ast.Try)]
     ok = len(trs) == 1 and any(callee_last(k) == 'iter' or dotted(k.func) == 'iter' for s in trs[0].body for k in calls_in(s)) and \
         len(trs[0].handlers) == 1 and norm(trs[0].handlers[0].type) == 'TypeError' and \
@@ -284,6 +301,8 @@ def check_order(c, repo):
 
 
 MUTANTS = [
+    ('cpl-compile-cache', 'spawnbase', "                compiled_pattern_list.append(re.compile(p, compile_flags))", "                if p not in self.__dict__.setdefault('_cp', {}):\n                    self._cp[p] = re.compile(p, compile_flags)\n                compiled_pattern_list.append(self._cp[p])", 'D1'),
+    ('exact-falsy-shortcut', 'spawnbase', "        if (isinstance(pattern_list, self.allowed_string_types) or\n                pattern_list in (TIMEOUT, EOF)):\n            pattern_list = [pattern_list]", "        if not pattern_list:\n            pattern_list = []\n        elif (isinstance(pattern_list, self.allowed_string_types) or\n                pattern_list in (TIMEOUT, EOF)):\n            pattern_list = [pattern_list]", 'D1'),
     ('cpl-no-else', 'spawnbase', "            else:\n                self._pattern_type_err(p)\n        return compiled_pattern_list", "        return compiled_pattern_list", 'D1'),
     ('cpl-else-skip', 'spawnbase', "            else:\n                self._pattern_type_err(p)\n        return compiled_pattern_list", "            else:\n                continue\n        return compiled_pattern_list", 'D1'),
     ('cpl-regex-uncoerced', 'spawnbase', "                p = self._coerce_expect_re(p)\n                compiled_pattern_list.append(p)", "                compiled_pattern_list.append(p)", 'D1'),
